@@ -1,7 +1,6 @@
 import Biogo.Properties.C15
 open Biogo.Properties.C15
 #print axioms pals_constants
-#print axioms decision_logic_fingerprints
 #print axioms palsMatrix_is_plus1_minus3
 #print axioms palsGlobal_opt
 #print axioms globalScore_opt
